@@ -65,7 +65,10 @@ InvWholeRecords ==
        /\ SameMultiset(d.frames, SeqFrames(vProg))
     ELSE
        \A port \in PortsOf(vOut) :
-          CanCut(PortBytes(vOut, port), [t \in Threads |-> Eager(RecordBytes(PlainRecords(vProg, t, port)))], Threads)
+          /\ CanCut(PortBytes(vOut, port), [t \in Threads |-> Eager(RecordBytes(PlainRecords(vProg, t, port)))], Threads)
+          \* plain mode carries no frames: a record is a LINE, so every record has to end in a newline
+          /\ \A t \in Threads : \A i \in 1..Len(PlainRecords(vProg, t, port)) :
+                LET b == PlainRecords(vProg, t, port)[i].bytes IN b # <<>> /\ b[Len(b)] = cLF
 \* vacuity guard: the programs really print (checked in the initial states)
 InvPrints == \A t \in Threads : \E i \in 1..Len(StepTable[vProg][t]) : StepTable[vProg][t][i].e \in {"write", "dwrite"}
 =============================================================================
